@@ -174,7 +174,45 @@ def clause_gymcollect(cases, ctx: Ctx):
     return g(cases, ctx, pid="C04")
 
 
-CLAUSES = {"collect": clause_collect, "gymcollect": clause_gymcollect, "mlp": clause_mlp}
+FRESH_TABLE = dict(T=[[0, 1], [1, 2], [2, 0]], term=[False, False, False], init=[True, True, True], limit=1, act_kind="discrete", obs_kind="discrete", S=3, A=2)
+
+
+def clause_fresh(cases, ctx: Ctx):
+    """"After a done step the environment restarts from a FRESH initial state": three equally likely initial states, every step ends
+    the episode, real reset + iteration.  If the restart state is the same at every step of every explored key, the restart is not
+    drawn from fresh randomness (with fresh draws: probability 3^-(11*len(keys)) per case).  case: {algo, num_envs, keys}"""
+    import equinox as eqx
+    from jax import random as jr
+
+    from lerax.callback import CallbackList
+
+    from mc.policies import ScriptedAC
+
+    out = []
+    for ci, c in enumerate(cases):
+        E, Tn = c["num_envs"], 12
+        env = collect.build_env(FRESH_TABLE)
+        pol = ScriptedAC(env, np.asarray([0]))
+        algo = collect.make_algo(c["algo"], E, Tn, 0.9, 0.8)
+        cb = CallbackList(callbacks=[])
+
+        @eqx.filter_jit
+        def run(key, algo=algo, cb=cb):
+            k1, k2 = jr.split(key)
+            st0 = algo.reset(env, pol, key=k1, callback=cb)
+            return algo.iteration(st0, key=k2, callback=cb).policy.observations
+
+        seqs = [np.asarray(run(jr.key(k))).reshape(E, Tn)[:, 1:].tolist() for k in c["keys"]]
+        ctx.transitions += E * Tn * len(c["keys"])
+        varied = any(len(set(row)) > 1 for s_ in seqs for row in s_)
+        ctx.guard("fresh-restart-varied", int(varied))
+        if not varied:
+            out.append((ci, f"C04/after-done/restart-state-never-varies/{c['algo']}",
+                        f"{c['algo']} num_envs={E}: 3 initial states, every step ends the episode: the states the environment restarted in were {seqs} for keys {c['keys']} - the same at every step of every run, not freshly drawn"))
+    return out
+
+
+CLAUSES = {"collect": clause_collect, "gymcollect": clause_gymcollect, "mlp": clause_mlp, "fresh": clause_fresh}
 
 
 def family(S, A, *, shaped, limits, act_kind="discrete", obs_kind="discrete", masks=False):
@@ -301,4 +339,7 @@ def explore(ctx: Ctx):
     ctx.notes["trivial_cases_(no_episode_end_no_clip_no_mask)"] = trivial
     ctx.nontrivial = set(range(len(cases) - trivial))
     ctx.states = ctx.transitions + ctx.traces  # every step reaches a reference state (s,t,c); + initial states
-    ctx.require("trunc_only", "term_only", "both", "clipped", "after_reset", "masked_rows", "gymcollect-episode-ends", "mlp-clipped", "mlp-trunc_only", "mlp-after_reset", "mlp-masked_rows")
+    from mc.core import key_ints as _ki
+
+    ctx.run("fresh", [dict(algo=a, num_envs=E, keys=[int(k) % 100000 for k in _ki(ctx.seed, 4, salt=5)]) for a in ("PPO", "A2C", "REINFORCE") for E in (1, 2)])
+    ctx.require("trunc_only", "term_only", "both", "clipped", "after_reset", "masked_rows", "gymcollect-episode-ends", "mlp-clipped", "mlp-trunc_only", "mlp-after_reset", "mlp-masked_rows", "fresh-restart-varied")
